@@ -196,6 +196,8 @@ class Units:
                 return self.space(e["recv"], depth + 1)
             if k == "MethodCall" and e.get("method") in ("start", "end") or (k == "MethodCall" and e.get("method") in ("range",)):
                 return self.space(e["recv"], depth + 1)
+            if k == "MethodCall" and e.get("method") == "len" and "Range<" in (e.get("rty") or ""):
+                return self.space(e["recv"], depth + 1)      # the length of a range of positions is a distance in the same space
             return None
         if k == "Field":
             fs = self.field_space(e)
